@@ -13,8 +13,12 @@ VERIF_DIR = os.path.dirname(os.path.dirname(os.path.dirname(os.path.abspath(__fi
 REPO_DIR = os.environ.get('VERIF_REPO', '/repo')
 DEPS_DIR = os.path.join(VERIF_DIR, '.deps')
 CACHE_DIR = os.path.join(VERIF_DIR, '.cache')
-EVIDENCE_DIR = os.path.join(VERIF_DIR, 'evidence')
+# VERIF_SCRATCH (developer runs against seeded changes only): evidence and new replay files are written there so
+# that an experiment never touches the committed evidence / regression replays
+SCRATCH_DIR = os.environ.get('VERIF_SCRATCH')
+EVIDENCE_DIR = os.path.join(SCRATCH_DIR or VERIF_DIR, 'evidence')
 REPLAY_DIR = os.path.join(VERIF_DIR, 'replays')
+NEW_REPLAY_DIR = os.path.join(SCRATCH_DIR, 'replays') if SCRATCH_DIR else REPLAY_DIR
 KNOWN_FINDINGS = os.path.join(VERIF_DIR, 'known_findings.json')
 GUARD = 'CRYPTOPARSER_VERIF'
 
